@@ -901,3 +901,218 @@ func (w *World) receiverWrites(t *Func) (map[string]bool, bool) {
 	})
 	return out.f, out.ok
 }
+
+// coalesceResultCopies: a search that was moved into a helper comes back from the substitution as
+//
+//	var cur T
+//	L: switch { default: x := first(); for { if x == nil { cur = nil; break L } … { cur = x; break L } … x = x.next() } }
+//
+// — the variable the rules know (cur) only receives copies of a new local (x) at the exits. Where x is dead
+// after every copy and cur is mentioned nowhere else while x is in scope, x IS cur: the search is written
+// with cur itself (`cur = first()` …), which is how the pinned function reads.
+func (w *World) coalesceResultCopies(overlay map[string][]byte) (map[string][]byte, []string) {
+	edits := map[string][]textEdit{}
+	var done []string
+	for _, name := range w.SortedFuncNames() {
+		f := w.Funcs[name]
+		pinned, ok := pinnedLocals[name]
+		if !ok || f.Decl.Body == nil {
+			continue
+		}
+		known := map[string]bool{}
+		for _, n := range strings.Fields(pinned) {
+			known[n] = true
+		}
+		info := f.Pkg.TypesInfo
+		tf, fname := w.fileOf(f.Decl.Pos())
+		var holders [][]ast.Stmt
+		ast.Inspect(f.Decl.Body, func(x ast.Node) bool {
+			switch y := x.(type) {
+			case *ast.BlockStmt:
+				holders = append(holders, y.List)
+			case *ast.CaseClause:
+				holders = append(holders, y.Body)
+			case *ast.CommClause:
+				holders = append(holders, y.Body)
+			}
+			return true
+		})
+		found := false
+		// every statement list of the function with, per statement, its successor in the list
+		nextOf := map[ast.Stmt]ast.Stmt{}
+		ast.Inspect(f.Decl.Body, func(x ast.Node) bool {
+			var l []ast.Stmt
+			switch y := x.(type) {
+			case *ast.BlockStmt:
+				l = y.List
+			case *ast.CaseClause:
+				l = y.Body
+			case *ast.CommClause:
+				l = y.Body
+			}
+			for i := 0; i+1 < len(l); i++ {
+				nextOf[l[i]] = l[i+1]
+			}
+			return true
+		})
+		leaves := func(st ast.Stmt) bool {
+			switch n := nextOf[st].(type) {
+			case *ast.BranchStmt:
+				return n.Tok == token.BREAK || n.Tok == token.GOTO
+			case *ast.ReturnStmt:
+				return true
+			}
+			return false
+		}
+		{
+			for _, holder := range holders {
+				for di, st := range holder {
+					d, ok := st.(*ast.AssignStmt)
+					if !ok || d.Tok != token.DEFINE || len(d.Lhs) != 1 || len(d.Rhs) != 1 {
+						continue
+					}
+					xid, ok := d.Lhs[0].(*ast.Ident)
+					if !ok || known[xid.Name] || xid.Name == "_" {
+						continue
+					}
+					xo := info.Defs[xid]
+					if xo == nil {
+						continue
+					}
+					scope := holder[di:]
+					// copies R = X inside the scope
+					var ro types.Object
+					var rname string
+					okAll, copies := true, 0
+					for _, s2 := range scope {
+						ast.Inspect(s2, func(y ast.Node) bool {
+							switch z := y.(type) {
+							case *ast.FuncLit:
+								ast.Inspect(z, func(q ast.Node) bool {
+									if id, ok := q.(*ast.Ident); ok && info.ObjectOf(id) == xo {
+										okAll = false
+									}
+									return true
+								})
+								return false
+							case *ast.UnaryExpr:
+								if z.Op == token.AND {
+									if id, ok := ast.Unparen(z.X).(*ast.Ident); ok && info.ObjectOf(id) == xo {
+										okAll = false
+									}
+								}
+							case *ast.AssignStmt:
+								if len(z.Lhs) == 1 && len(z.Rhs) == 1 && z.Tok == token.ASSIGN {
+									l, ok1 := z.Lhs[0].(*ast.Ident)
+									r, ok2 := ast.Unparen(z.Rhs[0]).(*ast.Ident)
+									if ok1 && ok2 && info.ObjectOf(r) == xo && known[l.Name] && info.ObjectOf(l) != xo {
+										lo := info.ObjectOf(l)
+										if ro != nil && lo != ro {
+											okAll = false
+										}
+										ro, rname = lo, l.Name
+										if !leaves(z) {
+											okAll = false
+										}
+										copies++
+									}
+								}
+							}
+							return true
+						})
+					}
+					if !okAll || ro == nil || copies == 0 || !types.Identical(ro.Type(), xo.Type()) {
+						continue
+					}
+					// every other mention of R in the scope: `R = nil` under `if X == nil`, leaving at once
+					for _, s2 := range scope {
+						var stack []ast.Node
+						ast.Inspect(s2, func(y ast.Node) bool {
+							if y == nil {
+								stack = stack[:len(stack)-1]
+								return true
+							}
+							stack = append(stack, y)
+							id, ok := y.(*ast.Ident)
+							if !ok || info.ObjectOf(id) != ro {
+								return true
+							}
+							// the enclosing assignment
+							var as *ast.AssignStmt
+							var guard *ast.IfStmt
+							for i := len(stack) - 1; i >= 0; i-- {
+								if a, ok := stack[i].(*ast.AssignStmt); ok && as == nil {
+									as = a
+								}
+								if g, ok := stack[i].(*ast.IfStmt); ok && guard == nil && as != nil && g.Body.Pos() <= as.Pos() && as.End() <= g.Body.End() {
+									guard = g
+								}
+							}
+							if as == nil || len(as.Lhs) != 1 || len(as.Rhs) != 1 || as.Lhs[0] != ast.Expr(id) || as.Tok != token.ASSIGN {
+								okAll = false
+								return true
+							}
+							if r, ok := ast.Unparen(as.Rhs[0]).(*ast.Ident); ok && info.ObjectOf(r) == xo {
+								return true // a copy
+							}
+							isNil := false
+							if r, ok := ast.Unparen(as.Rhs[0]).(*ast.Ident); ok && r.Name == "nil" {
+								isNil = true
+							}
+							guarded := false
+							if guard != nil {
+								if be, ok := ast.Unparen(guard.Cond).(*ast.BinaryExpr); ok && be.Op == token.EQL {
+									l, ok1 := ast.Unparen(be.X).(*ast.Ident)
+									r, ok2 := ast.Unparen(be.Y).(*ast.Ident)
+									if ok1 && ok2 && info.ObjectOf(l) == xo && r.Name == "nil" {
+										guarded = true
+									}
+								}
+							}
+							if !isNil || !guarded || !leaves(as) {
+								okAll = false
+							}
+							return true
+						})
+					}
+					if !okAll {
+						continue
+					}
+					// x is the variable the rules know
+					edits[fname] = append(edits[fname], textEdit{tf.Offset(d.Lhs[0].Pos()), tf.Offset(d.Rhs[0].Pos()), rname + " = "})
+					for _, s2 := range scope {
+						ast.Inspect(s2, func(y ast.Node) bool {
+							if z, ok := y.(*ast.AssignStmt); ok && len(z.Lhs) == 1 && len(z.Rhs) == 1 && z.Tok == token.ASSIGN {
+								l, ok1 := z.Lhs[0].(*ast.Ident)
+								r, ok2 := ast.Unparen(z.Rhs[0]).(*ast.Ident)
+								if ok1 && ok2 && info.ObjectOf(r) == xo && info.ObjectOf(l) == ro {
+									// the copy itself disappears
+									edits[fname] = append(edits[fname], textEdit{tf.Offset(z.Pos()), tf.Offset(z.End()), ""})
+									return false
+								}
+							}
+							if id, ok := y.(*ast.Ident); ok && info.Uses[id] == xo {
+								edits[fname] = append(edits[fname], textEdit{tf.Offset(id.Pos()), tf.Offset(id.End()), rname})
+							}
+							return true
+						})
+					}
+					done = append(done, name+":"+xid.Name+"->"+rname)
+					found = true
+					break
+				}
+				if found {
+					break
+				}
+			}
+		}
+	}
+	if len(done) == 0 {
+		return nil, nil
+	}
+	out := applyEdits(w, overlay, edits)
+	if out == nil {
+		return nil, nil
+	}
+	return out, done
+}
